@@ -200,7 +200,7 @@ fn mro_history(ctx: &mut Ctx, ops: &[Op], key_seed: u64) -> Result<(), (usize, F
     Ok(())
 }
 
-fn crash_inside_mro(ctx: &mut Ctx, ops: &[Op], key_seed: u64, r: &mut Rng) {
+fn crash_inside_mro(ctx: &mut Ctx, ops: &[Op], key_seed: u64, r: &mut Rng, tear: bool) {
     let rec = match crash::record_history(key_seed, ops) {
         Ok(r) => r,
         Err((i, f)) => {
@@ -210,8 +210,10 @@ fn crash_inside_mro(ctx: &mut Ctx, ops: &[Op], key_seed: u64, r: &mut Rng) {
         }
     };
     let before = ctx.counters.get("crash_points").copied().unwrap_or(0);
+    // a crash can also leave the write it interrupted partly done (byte prefixes of each write
+    // of the call): the torn header slot must lose against the other one, with all data
     let o = CrashOpts {
-        mode: Mode::Crash,
+        mode: if tear { Mode::Tear { random_cuts: 2 } } else { Mode::Crash },
         mask: CMP_WRITABLE | CMP_HAS,
         get_cap: 64,
         only: None,
@@ -326,7 +328,8 @@ fn run_case(ctx: &mut Ctx, id: u64) {
                 if let Err((i, f)) = mro_history(ctx, &ops, 7) {
                     report(ctx, i, f, &ops);
                 }
-                crash_inside_mro(ctx, &ops, 7, &mut r);
+                let tear = ops::ops_hash(&ops) % 4 == 0;
+                crash_inside_mro(ctx, &ops, 7, &mut r, tear);
                 if ctx.violations.len() > 6 {
                     return;
                 }
@@ -382,7 +385,11 @@ fn run_case(ctx: &mut Ctx, id: u64) {
     if let Err((i, f)) = mro_history(ctx, &ops, ks) {
         report(ctx, i, f, &ops);
     }
-    crash_inside_mro(ctx, &ops, ks, &mut r);
+    let tear = r.chance(1, 3);
+    if tear {
+        ctx.count("histories_with_torn_writes_inside_mro");
+    }
+    crash_inside_mro(ctx, &ops, ks, &mut r, tear);
     if id % 401 == 0 {
         ctx.sample(|| json!({"kind":"history","ops":ops::ops_to_json(&ops[..ops.len().min(16)])}));
     }
